@@ -426,6 +426,10 @@ func genC15Case(rng *rand.Rand) C15Case {
 		default:
 			g = coGenGroup(rng, coPermKinds(rng, coSubsetKinds(rng, rng.Intn(64))), 0.3, 0.08)
 		}
+		if rng.Intn(40) == 0 {
+			// sizes a generated group does not reach by chance (hundreds of PATH records / arguments / records)
+			g = coGenLarge(rng, []int{129, 255, 256, 257, 300}[rng.Intn(5)], rng.Intn(4))
+		}
 		if rng.Intn(6) == 0 {
 			coAddEdits(rng, &g)
 		}
